@@ -85,6 +85,11 @@ def observe(kind, heavyness, M2, tmc, x, Q2, interp):
         finally:
             conv.convolution = real_conv
         kin = dict(x=float(obj.x), mu=float(obj.mu), rho=float(obj.rho), xi=float(obj.xi))
+        # the shifted kinematics by their defining equations (the model takes them as inputs): mu = M2/Q2, rho^2 = 1 + 4 x^2 mu, xi = 2x/(1 + rho)
+        mu0 = M2 / Q2; rho0 = math.sqrt(1.0 + 4.0 * x * x * mu0); xi0 = 2.0 * x / (1.0 + rho0)
+        for nm, got, exp in (("mu", kin["mu"], mu0), ("rho", kin["rho"], rho0), ("xi", kin["xi"], xi0)):
+            if not (abs(got - exp) <= 1e-13 * max(abs(exp), 1e-300)):
+                problems.append("%s = %r where its defining equation gives %r" % (nm, got, exp))
         if res.x != x or res.Q2 != Q2:
             problems.append("result labelled with (%r, %r) instead of the requested point" % (res.x, res.Q2))
         for (_o, kk, kw) in sf.requests:
@@ -164,6 +169,11 @@ def run_tmc(chk, n):
             direct.append(dict(kind=kind, tmc=tmc, x=x, Q2=Q2, M2=M2, grid=gi, crash="%s: %s" % (type(e).__name__, str(e)[:120])))
             cases.append(None); descs.append(direct[-1]); continue
         d = dict(kind=kind, heavyness=hv, tmc=tmc, x=x, Q2=Q2, M2=M2, grid=gi)
+        if "rejected" not in o and not all(math.isfinite(v) for v in list(o["kin"].values()) + [c for c, _t in o["terms"]]):
+            # NaN / inf in the shifted kinematics or in a coefficient: a failing input by itself (the model is over exact rationals)
+            d["outcome"] = "computed"; d["problems"] = ["non-finite kinematics or coefficient: %s %s" % (o["kin"], o["terms"])]
+            direct.append(d); cases.append(None); descs.append(d)
+            continue
         if "rejected" in o:
             if Q2 > 0:
                 mu = M2 / Q2; rho = math.sqrt(1 + 4 * x * x * mu); xi = 2 * x / (1 + rho)
